@@ -81,8 +81,8 @@ def calleeTable : List (String × SpecId × Status) := [
   ("strchr", .strchr, .proved), ("memchr", .memchr, .proved), ("memcmp", .memcmp, .proved),
   ("memcpy", .memcpy, .proved), ("memmove", .memmove, .proved),
   ("inline:dest", .memcpy, .corr),                       -- the open-coded loop of wmemcpy (run time only, C18)
-  ("gcem::floor", .floor, .corr), ("gcem::ceil", .ceil, .corr), ("gcem::trunc", .trunc, .corr),
-  ("gcem::round", .round, .corr),
+  ("gcem::floor", .floor, .proved), ("gcem::ceil", .ceil, .proved), ("gcem::trunc", .trunc, .proved),
+  ("gcem::round", .round, .proved),
   ("rint_fallback", .rint, .corr), ("lrint_fallback", .lrint, .corr),
   ("copysign_fallback", .copysign, .proved),
   ("signbit_fallback", .signbit, .proved),               -- reads the sign bit of the representation (since b1ff629)
@@ -109,6 +109,8 @@ def proofOf : List (String × String) := [
   ("inline:min", "add_sat_paths"),
   ("strlen", "strlen_paths"), ("strcmp", "strcmp_paths"), ("strncmp", "strncmp_paths"), ("strchr", "strchr_paths"),
   ("memchr", "memchr_paths"), ("memcmp", "memcmp_paths"), ("memcpy", "memcpy_paths"), ("memmove", "memmove_paths"),
+  ("gcem::floor", "floor_paths"), ("gcem::ceil", "ceil_paths"), ("gcem::trunc", "trunc_paths"),
+  ("gcem::round", "round_paths"),
   ("copysign_fallback", "copysign_paths"), ("signbit_fallback", "signbit_paths"), ("inline:arg != arg", "isnan_paths")]
 
 def lookup {α : Type} (t : List (String × α)) (k : String) : Option α := (t.find? (·.1 == k)).map (·.2)
